@@ -451,8 +451,8 @@ def check_sbh(case, ctx):
 
 def facets():
     return [
-        Facet("scaling", sym_case(), check_scaling, quick=150, thorough=16000, qshards=4),
-        Facet("rotation", sym_case(), check_rotation, quick=150, thorough=16000, qshards=4),
-        Facet("bounds", sym_case(), check_bounds, quick=120, thorough=12000, qshards=2),
-        Facet("scale_by_hs", sbh_case(), check_sbh, quick=150, thorough=12000, qshards=3),
+        Facet("scaling", sym_case(), check_scaling, quick=150, thorough=6000, qshards=4),
+        Facet("rotation", sym_case(), check_rotation, quick=150, thorough=6000, qshards=4),
+        Facet("bounds", sym_case(), check_bounds, quick=120, thorough=5000, qshards=2),
+        Facet("scale_by_hs", sbh_case(), check_sbh, quick=150, thorough=5000, qshards=3),
     ]
